@@ -2,7 +2,7 @@
 For every collection kind, every reachable model state (BFS over functional updates, models from c11_coll), every update and
 every way the operand can be held at the update site (global / live local / last use with a live alias / last use in one branch /
 loop-carried with all old versions kept / captured by a closure / inside a container / rest-argument / both operands the same
-object / cloned by another thread while the owner updates at its last use): the result equals the model's update of a fresh copy
+object / cloned by another thread while the owner updates at its last use / uniquely referenced (the in-place path itself) / a fifth or later parameter read twice): the result equals the model's update of a fresh copy
 and every other holder still observes the old value."""
 import sys, json
 from . import common, c11_coll
@@ -26,6 +26,15 @@ MODES = [
     ("global-fn-arg-last-use", ["(define keep {V})", "(define (f x) {U})", "(list (f keep) keep)"]),
     ("map-callback", ["(let ((v {V})) (let ((rs (map (lambda (x) {U}) (list v v)))) (list (car rs) v)))"]),
     ("continuation", ["(let ((x {V})) (let ((k (call/cc (lambda (c) c)))) (if (procedure? k) (let ((r {U})) (k (list r))) (list (car k) x))))"]),
+    # the operand is uniquely referenced at the update (the in-place path is the one that runs); the old value is rebuilt for comparison
+    ("unique-local-last-use", ["(let ((x {V})) (let ((r {U})) (list r {V})))"]),
+    ("unique-temporary", ["(list (let ((x {V})) {U}) {V})"]),
+    ("unique-fn-arg", ["(define (f x) {U})", "(list (f {V}) {V})"]),
+    ("unique-fn-arg-applied", ["(define (f x) {U})", "(list (apply f (list {V})) {V})"]),
+    # a parameter beyond the fourth, read twice in one expression, the last read being its last use (called, not inlined)
+    ("fifth-param-read-then-last-use", ["(define (f a b c d x) (list x {U}))", "(let ((r (apply f (list 1 2 3 4 {V})))) (list (car (cdr r)) (car r)))"]),
+    ("sixth-param-read-then-last-use", ["(define (f a b c d e x) (list x {U} e))", "(let ((r (apply f (list 1 2 3 4 5 {V})))) (list (car (cdr r)) (car r)))"]),
+    ("fifth-param-last-use-alias", ["(define (f a b c d x) {U})", "(let ((v {V})) (list (apply f (list 1 2 3 4 v)) v))"]),
     ("other-thread", ["(define bx (box {V}))", "(define c1 (channels/new))", "(define c2 (channels/new))",
                       "(define t (spawn-native-thread (lambda () (let ((mine (unbox bx))) (channel/send (channels-sender c1) 'got) "
                       "(channel/recv (channels-receiver c2)) mine))))",
@@ -84,6 +93,8 @@ def programs(tier):
     out = []
     depth = 2 if tier == "thorough" else 1
     for kind in c11_coll.KINDS:
+        if kind in c11_coll.MUTABLE_KINDS:
+            continue
         sts = states(kind, depth)
         _, opsf = c11_coll.KINDS[kind]
         for s in sts:
